@@ -164,6 +164,7 @@ type Interp struct {
 	prefers        []*Term
 	crcStreams     map[*Loc][]*Term
 	clockLast      *Term
+	randStates     map[*Loc]*Term
 	randPre        []*Term // pre-allocated math/rand draws (nd.RandInts)
 	abstractArith  bool    // nd.AbstractArith(): see Solver.Abstract
 	absSolver      *Solver // lazily started abstract-arithmetic solver
@@ -216,6 +217,7 @@ func (in *Interp) resetPath(prefix []int) {
 	in.randPre = nil
 	in.crcStreams = nil
 	in.clockLast = nil
+	in.randStates = nil
 }
 
 func (in *Interp) end(status, msg string) {
